@@ -35,8 +35,8 @@ var (
 	embeddedTileMatrixSetsCache  = make(map[string]*TileMatrixSet)
 	crsURIRegexURL               = regexp.MustCompile(`https?://.+/def/crs/(?P<authority>[^/]+)/(?P<version>[^/]*)/(?P<code>[^/]+)$`)
 	crsURIRegexURN               = regexp.MustCompile(`^urn:ogc:def:crs:(?P<authority>[^:]+):(?P<version>[^:]*):(?P<code>[^:]+)$`)
-	latLonOrderedAxesRegex       = regexp.MustCompile(`^(e,n|x,y|lon,lat|e\(x\),n\(y\))`)
-	lonLatOrderedAxesRegex       = regexp.MustCompile(`^(n,e|y,x|lat|lon)`)
+	latLonOrderedAxesRegex       = regexp.MustCompile(`^(n,e|y,x|lat,lon|n\(y\),e\(x\))`)
+	lonLatOrderedAxesRegex       = regexp.MustCompile(`^(e,n|x,y|lon,lat|e\(x\),n\(y\))`)
 )
 
 func LoadJSONTileMatrixSet(path string) (TileMatrixSet, error) {
